@@ -51,6 +51,10 @@ TEMPLATES = {
     "droplic": ("droplic.jinja2", "{% for copyright_line in copyright_lines %}\n{{ copyright_line }}\n{% endfor %}\n"),
     "dropcop": ("dropcop.jinja2", "{% for expression in spdx_expressions %}\nSPDX-License-Identifier: {{ expression }}\n{% endfor %}\n"),
     "dropboth": ("dropboth.jinja2", "Nothing but prose here.\n"),
+    # a template with a tag of its own: what it renders is more than what was requested
+    "fixedtag": ("fixedtag.jinja2",
+                 "SPDX-FileCopyrightText: 2015 ACME Template Corp\n{% for copyright_line in copyright_lines %}\n{{ copyright_line }}\n{% endfor %}\n\n"
+                 "{% for expression in spdx_expressions %}\nSPDX-License-Identifier: {{ expression }}\n{% endfor %}\n"),
     # pre-commented templates that lose information: the read-back check must apply to them as well
     "droplic-commented": ("lossylic.commented.jinja2", "# header\n{% for copyright_line in copyright_lines %}\n# {{ copyright_line }}\n{% endfor %}\n"),
     "dropboth-commented": ("lossyboth.commented.jinja2", "# nothing but a commented line\n"),
